@@ -20,7 +20,7 @@ META = {
                           'judged_disguised', 'shadows_from_ctor', 'one_shot_arguments_rewrapped'],
     'shards': {'quick': 16, 'thorough': 16},
     'exhaustive': {'quick': 'all 682 boolean tables with <= 3 objects and <= 3 properties x all subsets of both axes',
-                   'thorough': 'all boolean tables <= 3x3, 3x4, 4x3 x all subsets of both axes'},
+                   'thorough': 'all boolean tables <= 3x3, 3x4, 4x3, 4x4 x all subsets of both axes'},
     'assumptions': ['bitsets result objects are decoded through their public members()/int()',
                     'unknown labels (KeyError) are out of scope'],
 }
@@ -127,7 +127,7 @@ def setup(concepts, spec):
 
 
 def cases(tier, seed, spec):
-    return gen.ctx_stream(tier, seed)
+    return gen.ctx_stream(tier, seed, with_huge=True)
 
 
 def _drive_axis(ctx, fn, items, rng, spec, budget):
